@@ -7,7 +7,7 @@ from ..refmodel import dtl
 from ..refmodel.trees import T, shape_from_json
 from ete3 import Tree
 from superrec2.compute.reconciliation import reconcile_lca, reconcile_thl
-from superrec2.model.reconciliation import ReconciliationInput, NodeEvent
+from superrec2.model.reconciliation import ReconciliationInput, NodeEvent, EdgeEvent
 from superrec2.utils.trees import LowestCommonAncestor
 
 PROP = "C07"
@@ -116,7 +116,8 @@ def check_input(O, S, leafmap):
 
 def session_step(O, S, ot, lca, los, onode, snode, leafmap):
     """one reconcile_lca call in a session: shared trees, shared LCA structure, shared (already updated) mapping dict"""
-    inp = ReconciliationInput(ot, lca, los, A.cost_dict((0, 1, INF, 1, 1)))
+    own = A.cost_dict((0, 1, INF, 1, 1))      # the caller's own cost dict, kept and edited below (a cost sweep)
+    inp = ReconciliationInput(ot, lca, los, own)
     try:
         out = reconcile_lca(inp)
         m = A.mapping_of(out, onode, snode)
@@ -130,6 +131,17 @@ def session_step(O, S, ot, lca, los, onode, snode, leafmap):
     wantc = sum(1 for e in evs.values() if e[0] == "D") + sum(e[1] for e in evs.values())
     if ic != wantc:
         return ("cost_mismatch", f"implementation cost {ic} of the LCA reconciliation != model cost {wantc}")
+    ndup, nloss = sum(1 for e in evs.values() if e[0] == "D"), sum(e[1] for e in evs.values())
+    for dup, loss in ((3, 1), (0, 2), (1, 1)):
+        own[NodeEvent.DUPLICATION] = dup       # the dict the caller passed in, not inp.costs
+        own[EdgeEvent.FULL_LOSS] = loss
+        try:
+            ic = A.impl_cost(reconcile_lca(inp).cost())
+        except Exception as exc:
+            return ("exception", f"reconcile_lca raised {type(exc).__name__}: {exc}\n{traceback.format_exc(limit=5)}")
+        if ic != dup * ndup + loss * nloss:
+            return ("cost_mismatch", f"caller's cost dict set to dup={dup}, loss={loss} after the input was built: LCA "
+                                     f"reconciliation reported at {ic}, model cost {dup * ndup + loss * nloss}")
     if len(O.leaves) <= 3 and len(S.leaves) <= 3:
         # "equality when transfers are forbidden": the general solver on the SAME input object, first with transfers allowed,
         # then - the cost dict edited in place - with an infinite transfer cost, must then return exactly the LCA mapping
